@@ -34,6 +34,10 @@ CLAIMS = {
          "On the race-detector build of the real binary: gated schedules hold one goroutine inside Tunnel.Write / the registry functions (hook gates) and provoke the conflicting one, TLC checks the recorded section events for overlap; "
          "hook-free concurrent soaks of 8..64 tunnels with a start barrier feed race reports / fatal errors / frame integrity into the trace as sensor events.", "DESIGN.md §4 C09",
          "TLC design check with lock-necessity; gated schedule replay + race-detector sensor on the real binary; TLC trace validation"),
+ "C10": ("Hostile.tla: catalogue of hostile input classes per entry point, with no action that panics or stops a process. On the real binaries (gateway: TLS on/off, socket buffers unset/set, openid/ntlm/local/kerberos; real "
+         "rdpgw-auth) every class of the catalogue enumerated by TLC is sent in several phases and on both transports; after each: panic sensor (hook 'panicking' flag + stderr), liveness of both processes, a probe request on a "
+         "new connection, handler exit after close; TLC judges each input (HostileTrace). The panic guards of all other trace specifications feed the same property.", "DESIGN.md §4 C10",
+         "TLC-enumerated hostile-input catalogue replayed on the real binaries; TLC trace validation"),
  "C11": ("Teardown.tla (resources of a tunnel, ending causes, release steps) model-checked for both transports incl. the liveness property 'ending ~> released'; on the real binary every point of the exchange x every ending "
          "cause x data in flight x transport, observing within 3 s EOF at the host and on the client connections, loop/relay/unregister hooks, goroutine census and gauges; TLC judges each scenario. "
          "Open known finding: client closing only the legacy OUT connection.", "DESIGN.md §4 C11",
